@@ -50,6 +50,11 @@ func (r *simReport) bad(sig, f string, a ...any) {
 	}
 }
 
+// simOnStall: if a scenario stalls (see verifsim.Bubble) what was found so far is still written.
+func simOnStall(file string, r *simReport) {
+	verifsim.OnStall(func() { simWriteReport(file, r) })
+}
+
 func simWriteReport(file string, r *simReport) {
 	b, _ := jsonMarshal(r)
 	os.WriteFile(os.Getenv("VERIF_OUT")+"/"+file, b, 0o644)
